@@ -785,15 +785,24 @@ example : ∃ ds, parseDeclListA 10 (printNsA demoNsA ++ [.rb]) = some (ds, [.rb
     · exact ⟨by intro y hy; simp at hy; rcases hy with rfl | rfl <;> decide +kernel, by simp [KeysSorted]; decide +kernel⟩
     · exact ⟨by intro y hy; simp at hy, by simp [KeysSorted]⟩
 
-/-- the statement still open for annotations: a whole ANNOTATED fragment — annotations on `namespace` blocks (the `Annotation*`
-prefix of `Namedspace`, refused on the empty namespace by the JSON deserialiser) and on record ATTRIBUTES (`TypeOfAttribute`,
-inside type expressions) in addition to the declaration annotations proved above — printed and re-read is the normal form of
-`fragment_roundtrip` with `normAnns` applied to every annotation map.  `annotated_namespace_roundtrip` is the declaration-list part. -/
+/-- the annotated items a printed annotated fragment denotes: the declarations of `itemsOf` (un-annotated theorem), every annotation
+map in its `normAnns` form -/
+def itemsOfA (f : FragmentA) : List ItemA :=
+  (match f.empty with
+    | some d => (triplesOfNsA d).map (fun x => ItemA.decl (normAnns x.1) x.2.2)
+    | none => []) ++
+  f.named.map fun x => ItemA.ns (normAnns x.2.1) x.1 ((triplesOfNsA x.2.2).map fun y => (normAnns y.1, y.2.2))
+
+def AnnsOKFrag (f : FragmentA) : Prop :=
+  (∀ d, f.empty = some d → AnnsOKNs d) ∧ (∀ x ∈ f.named, WFAnns x.2.1 ∧ KeysSorted x.2.1 ∧ AnnsOKNs x.2.2)
+
+/-- the WHOLE-FRAGMENT statement for annotations (annotations on `namespace` blocks and on every declaration; annotations on record
+attributes are outside the model): the printed annotated fragment parses to `itemsOfA f` — whose stripped form is `itemsOf f.strip`,
+so that `fragment_roundtrip` gives the JSON content.  Proved so far: the declaration lists (`annotated_namespace_roundtrip`) and the
+annotation maps (`annotations_roundtrip`); the induction over the `namespace` blocks of `parseItemsA` is not done. -/
 def AnnotatedFragmentRoundtrip : Prop :=
-  ∀ (FragmentA : Type) (strip : FragmentA → FragmentJ) (normA : FragmentA → FragmentA)
-    (printA : FragmentA → List Tok) (parseA : List Tok → Option FragmentA),
-    -- for the (unwritten) annotated printer / parser pair that agree with the un-annotated ones on stripped fragments
-    (∀ f, (parseA (printA f)).map strip = parseFragment (printFragmentJ (strip f))) →
-    ∀ f, WFFrag (strip f) → SortedFrag (strip f) → parseA (printA f) = some (normA f)
+  ∀ f : FragmentA, WFFrag f.strip → AnnsOKFrag f →
+    parseItemsA ((printFragmentA f).length + 1) (printFragmentA f) = some (itemsOfA f) ∧
+    (itemsOfA f).map ItemA.strip = itemsOf f.strip
 
 end Cedar.C09
